@@ -125,12 +125,14 @@ def call_package(I, e, s, g, args, kwargs):
     # "key K is present in <argument>" facts established by the caller hold for the corresponding parameter of the callee
     facts = set()
     gp = g.params
+    # a method reached through its receiver (`x.m(a)`): the receiver is the first parameter, the written arguments follow
+    shift = 1 if (isinstance(e.func, ast.Attribute) and len(args) == len(e.args) + 1 and gp) else 0
     for i, a in enumerate(e.args):
-        if i < len(gp) and isinstance(a, (ast.Name, ast.Attribute)):
+        if i + shift < len(gp) and isinstance(a, (ast.Name, ast.Attribute)):
             cname = norm(a)
             for (d, k) in s.present:
                 if d == cname and k[0] == "c":
-                    facts.add((gp[i], k))
+                    facts.add((gp[i + shift], k))
     for kw in e.keywords:
         if kw.arg and isinstance(kw.value, (ast.Name, ast.Attribute)):
             cname = norm(kw.value)
@@ -139,18 +141,48 @@ def call_package(I, e, s, g, args, kwargs):
                     facts.add((kw.arg, k))
     sib = {}
     for i, a in enumerate(e.args):
-        if i < len(gp) and isinstance(a, ast.Name):
+        if i + shift < len(gp) and isinstance(a, ast.Name):
             for (var, key), v in s.sib.items():
                 if var == a.id:
-                    sib[(gp[i], key)] = v
+                    sib[(gp[i + shift], key)] = v
     for kw in e.keywords:
         if kw.arg and isinstance(kw.value, ast.Name):
             for (var, key), v in s.sib.items():
                 if var == kw.value.id:
                     sib[(kw.arg, key)] = v
+    # the scope stack may be different after any call into the package
+    s.present = {f for f in s.present if f[0] != "__url_ok__" and not f[0].endswith(".__url_ok_if_nonempty__")}
+    # callee parameter -> the caller's expression for it (receiver included), for the facts the callee establishes on every exit
+    p2a = {}
+    explicit = list(e.args)
+    off = 0
+    if isinstance(e.func, ast.Attribute) and len(args) == len(explicit) + 1 and gp:
+        p2a[gp[0]] = norm(e.func.value)
+        off = 1
+    for i, a in enumerate(explicit):
+        if i + off < len(gp) and isinstance(a, (ast.Name, ast.Attribute)):
+            p2a[gp[i + off]] = norm(a)
+    for kw in e.keywords:
+        if kw.arg and isinstance(kw.value, (ast.Name, ast.Attribute)):
+            p2a[kw.arg] = norm(kw.value)
     # a function defined inside the caller reads the caller's variables as they are now
     closure = dict(s.env) if (g.outer is not None and g.outer is I.cur_func) else None
+    I.last_exit_facts = frozenset()
     ret = I.call_func(g, args, kwargs, node=e, present=frozenset(facts), sib=sib, closure_env=closure)
+    for (d, k) in getattr(I, "last_exit_facts", ()):
+        def to_caller(text):
+            head, _dot, rest = text.partition(".")
+            return (p2a[head] + _dot + rest) if head in p2a else None
+        if d == "__url_ok__":
+            t = to_caller(k)
+            if t is not None:
+                s.present.add(("__url_ok__", t))
+        elif d.endswith(".__url_ok_if_nonempty__"):
+            pn = d[:-len(".__url_ok_if_nonempty__")]
+            t = to_caller(k[1])
+            if t is not None and pn in p2a and "." not in p2a[pn]:
+                s.present.add((p2a[pn] + ".__url_ok_if_nonempty__", ("u", t)))
+    I.last_exit_facts = frozenset()
     # rename keys_of facts from callee parameter names to caller argument names
     def rename(av, depth=0):
         if av is None or depth > 2:
@@ -158,8 +190,8 @@ def call_package(I, e, s, g, args, kwargs):
         ko = set()
         for nm in av.keys_of:
             for i, p in enumerate(g.params):
-                off = 0
-                if p == nm and i - off < len(e.args) and isinstance(e.args[i - off], ast.Name):
+                off = shift
+                if p == nm and i - off >= 0 and i - off < len(e.args) and isinstance(e.args[i - off], ast.Name):
                     ko.add(e.args[i - off].id)
             for k in e.keywords:
                 if k.arg == nm and isinstance(k.value, ast.Name):
@@ -200,8 +232,23 @@ def call_ext(I, e, s, name, args, kwargs):
     if name in CALLEE_RAISES_ON_STR:
         for a in args[:1] if (name.endswith("unquote")) else args:
             I.need(a.kinds <= frozenset(["str", "opaque"]), "TypeError", e, "%s on a non-string" % name, a.describe())
+        # urljoin / urldefrag / urlsplit raise ValueError for one reason: the URL (the base, for urljoin) does not parse.  A second
+        # parse of the resolver's current scope on a path where the first one returned cannot raise: `url = join(self.resolution_scope,
+        # ref)` followed by `self.base_uri`.  The fact lives in the path state (intersected at joins, dropped at any package call).
+        a0 = e.args[0] if e.args else None
+        scope_fact = ("__url_ok__", norm(a0)) if isinstance(a0, ast.Attribute) and a0.attr == "resolution_scope" \
+            and name.split(".")[-1] in ("urljoin", "urldefrag", "urlsplit", "urlparse") else None
         for x in CALLEE_RAISES_ON_STR[name]:
+            if x == "ValueError" and scope_fact is not None and s is not None and scope_fact in s.present and name.split(".")[-1] != "urljoin":
+                continue
             I.raise_(x, e, "%s(%s)" % (name, ", ".join(norm(a)[:25] for a in e.args)))
+        if scope_fact is not None and s is not None:
+            if name.split(".")[-1] != "urljoin":
+                s.present.add(scope_fact)
+            elif len(e.args) > 1 and isinstance(e.args[1], ast.Name):
+                # urljoin(base, url) parses the base unless url is empty: the fact becomes usable where the path knows url is not
+                # empty (`url.startswith("#")`, see Interp.refine); it is dropped when that name is assigned again
+                s.present.add((e.args[1].id + ".__url_ok_if_nonempty__", ("u", norm(a0))))
         if name.endswith("urldefrag"):
             return AV(["tuple"], items=(AV(["str"]), AV(["str"])))
         if name.endswith("urlsplit"):
@@ -512,7 +559,7 @@ def obj_method(I, e, s, t, recv, attr, args, kwargs, is_cls=False):
         if is_cls:
             # Class.method(obj, ...): a plain function taken from the class; the first argument is the receiver
             return I.call_func(m, args, kwargs, node=e)
-        ret = I.call_func(m, [recv] + args, kwargs, node=e)
+        ret = call_package(I, e, s, m, [recv] + args, kwargs)
         return ret
     if t in I.calls.type_cls:
         a = I.obj_attr(t, attr, recv, e, s)
